@@ -5,8 +5,10 @@ import (
 )
 
 // verifArbitraryInfoValue: the image of json.Unmarshal for one key of Body.Info.
-func verifArbitraryInfoValue(name string, right string) (any, bool) {
-	switch nondet_choice(name, 7) {
+func verifArbitraryInfoValue(name string, right string, cross string) (any, bool) {
+	switch nondet_choice(name, 8) {
+	case 7:
+		return cross, true // a value that is right for somebody else
 	case 0:
 		return nil, false // key absent
 	case 1:
@@ -49,10 +51,14 @@ func H_c06_first() {
 	}
 	if nondet_choice("info-present", 2) == 1 {
 		pk.Body.Info = map[string]any{}
-		if v, ok := verifArbitraryInfoValue("info-user", users[ui]); ok {
+		if v, ok := verifArbitraryInfoValue("info-user", users[ui], "op2"); ok {
 			pk.Body.Info["User"] = v
 		}
-		if v, ok := verifArbitraryInfoValue("info-password", rightPw); ok {
+		crossPw := verifDigestHex("pw1") // the digest of another operator's password
+		if ui == 0 {
+			crossPw = verifDigestHex("pw2")
+		}
+		if v, ok := verifArbitraryInfoValue("info-password", rightPw, crossPw); ok {
 			pk.Body.Info["Password"] = v
 		}
 	}
